@@ -49,7 +49,7 @@ func runC01(r *core.Run) (bool, string) {
 	c01Matrix(r, goose)
 	c01Statements(r, goose)
 	rng := core.NewRng(r.Seed, "c01-random")
-	nb := r.Pick(3, 60)
+	nb := r.Pick(3, 240)
 	perBatch := r.Pick(14, 40)
 	type job struct {
 		idx  int
